@@ -27,7 +27,9 @@ func sortedIdents(m map[ident][]*backend.BfeBackend) []ident {
 	for k := range m {
 		ks = append(ks, k)
 	}
-	sort.Slice(ks, func(i, j int) bool { return ks[i].cluster+"/"+ks[i].sub+"/"+ks[i].addr < ks[j].cluster+"/"+ks[j].sub+"/"+ks[j].addr })
+	sort.Slice(ks, func(i, j int) bool {
+		return ks[i].cluster+"/"+ks[i].sub+"/"+ks[i].addr < ks[j].cluster+"/"+ks[j].sub+"/"+ks[j].addr
+	})
 	return ks
 }
 
@@ -36,7 +38,9 @@ func sortedIdentsM(m map[ident]*mBackend) []ident {
 	for k := range m {
 		ks = append(ks, k)
 	}
-	sort.Slice(ks, func(i, j int) bool { return ks[i].cluster+"/"+ks[i].sub+"/"+ks[i].addr < ks[j].cluster+"/"+ks[j].sub+"/"+ks[j].addr })
+	sort.Slice(ks, func(i, j int) bool {
+		return ks[i].cluster+"/"+ks[i].sub+"/"+ks[i].addr < ks[j].cluster+"/"+ks[j].sub+"/"+ks[j].addr
+	})
 	return ks
 }
 
